@@ -103,6 +103,16 @@ def t_slowfin(mpath, n=2):
     return ('own', x)
 
 
+def t_linger(mpath, n=1):
+    """returns at once but leaves a non-daemon thread behind: the child stays alive for a while after reporting"""
+    import threading
+    import time
+    mark(mpath, 'start')
+    threading.Thread(target=time.sleep, args=(2.5,)).start()
+    mark(mpath, 'ret')
+    return ('own', 1)
+
+
 def t_bexc(mpath, n=1):
     mark(mpath, 'start')
     mark(mpath, 'raise')
@@ -139,7 +149,7 @@ def t_slow(mpath, n=1):
     return Slow()
 
 
-TARGETS = {'slowfin': t_slowfin, 'unreb2': t_unreb2, 'badret': t_badret, 'slow': t_slow, 'ret': t_ret, 'exc': t_exc, 'bexc': t_bexc, 'unreb': t_unreb, 'big': t_big}
+TARGETS = {'linger': t_linger, 'slowfin': t_slowfin, 'unreb2': t_unreb2, 'badret': t_badret, 'slow': t_slow, 'ret': t_ret, 'exc': t_exc, 'bexc': t_bexc, 'unreb': t_unreb, 'big': t_big}
 
 
 def p_item(mpath, k, bump=0):
